@@ -417,6 +417,19 @@ def r11_8(ctx):
                         bad.append(f"{U(v)} (printed form of an operand)")
             ctx.check(f"{fi.qual}: name of {cls} `{U(name)[:50]}`", not bad, "identifier characters and C spellings only", "; ".join(bad) or "ok", f"{fi.path.relative_to(idx.repo)}:{n.lineno}", nontrivial=bool(bad) or any(isinstance(p, ast.FormattedValue) for p in name.values))
     ctx.need(n_sites >= 6, f"only {n_sites} templated node names found")
+    # names the constant folders give their results (embedded by consumers such as jump_<operand>)
+    from .c09 import number
+    for q, mk in (("simplify_unary_expr", lambda r: [[Tok("UNARY_OP", "-"), number(r, "a", 5, True, 32)]]),
+                  ("simplify_unary_expr", lambda r: [[Tok("UNARY_OP", "~"), number(r, "a", 5, False, 32)]]),
+                  ("simplify_arithmetic_expr", lambda r: [[number(r, "a", 4, True, 32), Tok("ADD_OP", "+"), number(r, "b", 4, True, 32)]]),
+                  ("simplify_arithmetic_expr", lambda r: [[number(r, "a", 4, True, 32), Tok("SUB_OP", "-"), number(r, "b", 9, True, 32)]])):
+        r = Runner(idx, keep_real=(q,))
+        fi, outs = r.run(q, lambda r=r, mk=mk: mk(r), args_list=True)
+        for o in outs:
+            if o.kind == "raise" or not (isinstance(o.value, AObj) and o.value.cls == "Number"):
+                continue
+            nm = to_text(ctor(o.value, "name"))
+            ctx.check(f"name of a folded constant [{q}: {nm}]", re.fullmatch(r"[A-Za-z_][A-Za-z0-9_]*", nm or "") is not None, "identifier characters only", str(nm), fn_where(idx, fi))
     # type names embedded in node names (`cast_st32`, `ite_cast_ut8`, `ret_val_ut32`): the printed form of an integer type is
     # identifier characters only, whatever flags the type carries
     fs = idx.func("ValueType.__str__")
